@@ -37,7 +37,7 @@ Print Assumptions C11_duplicate_party_error.
 
 (* and whatever the outcome, nothing of the session stays behind (C12_no_residue) *)
 Theorem C11_returns_clean :
-  forall mm w sid s, reachable mm w -> sget (sessions w) sid = Some s -> s_api s <> None ->
+  forall w sid s, reachable w -> sget (sessions w) sid = Some s -> s_api s <> None ->
   forall k, tget (syncs w) k <> Some sid /\ tget (rbcs w) k <> Some sid /\ tget (cls w) k <> Some sid.
 Proof. exact no_residue. Qed.
 Print Assumptions C11_returns_clean.
